@@ -326,6 +326,15 @@ def guard_cases(ctx, scale):
             out.append('gd rb %d %d 0 %d' % (n, cap, i)); out.append('gd segrb %d 0 0 %d' % (n, i))
             out.append('gd idx %d %d %d 0' % (n, cap, i))
         out.append('gd abn %d %d 0 0' % (n, cap))
+        for c in sorted(set([0, 1, max(0, n - 1), n, n + 1, max(0, cap - 1), cap, cap + 1])):      # Shrink(capacity): generated clamps vs the real capacity afterwards
+            out.append('gd shrink %d %d 0 %d' % (n, cap, c)); out.append('gd segshrink %d %d 0 %d' % (n, cap, c))
+        if cap % 4 == 0:     # ArrayShifter<SegmentedArray> (whole segments of 4, so that the capacities agree): Gen_ShiftLoopsSeg.v
+            for i in range(0, n + 2):
+                for c in range(0, n + 2):
+                    out.append('gl sremove %d %d %d %d 0' % (n, cap, i, c))
+                for c in range(0, cap - n + 2):
+                    for ii in range(0, n + 1):
+                        out.append('gl sinsert %d %d %d %d %d' % (n, cap, i, c, ii))
         for i in range(0, n + 2):
             out.append('gd indexof %d %d %d 0' % (n, cap, i))
         # the generated LOOPS: every index, counts 0..free+1, item = every element (aliased) or an external object
@@ -659,11 +668,13 @@ def replay(ctx, rp):
 def finish(ctx):
     """ctx.finish + hygiene for runs against a private copy of the headers (VERIF_REPO = mutant / seed runs): such a run must not leave
     anything behind that a following normal run (or a reader of evidence/) would trip over: the evidence file of the last NORMAL run is
-    restored (the mutant's evidence is kept as build/C05/evidence-mutant.json).  The replay files named by the VIOLATION lines stay in replays/
-    (they are the deliverable of the run; nothing reads that directory on a normal run)."""
+    restored (the mutant's evidence is kept as build/C05/evidence-mutant.json).  The replay files written by the run are moved from replays/ to
+    build/C05/mutant-replays/ (same file names as in the VIOLATION lines)."""
     ev = os.path.join(ctx.root, 'evidence', ctx.id + '.json')
     mutant = os.path.realpath(ctx.repo) != os.path.realpath('/repo')
     saved = open(ev).read() if (mutant and os.path.exists(ev)) else None
+    rdir = os.path.join(ctx.root, 'replays')
+    before = set(os.listdir(rdir)) if os.path.isdir(rdir) else set()
     rc = ctx.finish(rule=RULE)
     if mutant:
         import shutil
@@ -673,7 +684,12 @@ def finish(ctx):
                 open(ev, 'w').write(saved)
             else:
                 os.remove(ev)
-            print('[%s] mutant run (VERIF_REPO=%s): evidence/%s.json restored (this run: build/%s/evidence-mutant.json)' % (ctx.id, ctx.repo, ctx.id, ctx.id), flush=True)
+            dst = os.path.join(ctx.build, 'mutant-replays'); os.makedirs(dst, exist_ok=True)
+            moved = 0
+            for f in sorted(set(os.listdir(rdir)) - before):
+                if f.startswith(ctx.id + '-'):
+                    shutil.move(os.path.join(rdir, f), os.path.join(dst, f)); moved += 1
+            print('[%s] mutant run (VERIF_REPO=%s): evidence/%s.json restored (this run: build/%s/evidence-mutant.json); %d replay file(s) of this run moved to %s' % (ctx.id, ctx.repo, ctx.id, ctx.id, moved, dst), flush=True)
         except OSError as e:
             print('[%s] mutant-run hygiene failed: %s' % (ctx.id, e), flush=True)
     return rc
